@@ -16,4 +16,45 @@ pub mod verif_hooks {
     pub use super::process_indels::verif_hooks::{dereplicate_indels, extract_middle_bases};
     pub use super::process_variants::check_missing_data;
     pub use super::process_variants::verif_hooks::{complement_snp, get_potential_snp};
+
+    use crate::ska_dict::bit_encoding::UInt;
+    use crate::skalo::utils::VariantInfo;
+    use hashbrown::HashMap;
+
+    /// (entry k-mer, exit k-mer, [(path sequence, marked positions)]) of each variant group
+    pub type GroupDump = Vec<(String, String, Vec<(String, Vec<usize>)>)>;
+
+    /// The SNP groups and indel groups of the last `build_variant_groups` call, recorded just
+    /// before the variant caller runs
+    pub static GROUP_SINK: std::sync::Mutex<Option<(GroupDump, GroupDump)>> =
+        std::sync::Mutex::new(None);
+
+    fn dump<IntT: for<'a> UInt<'a>>(
+        groups: &HashMap<(IntT, IntT), Vec<VariantInfo>>,
+        k_graph: usize,
+    ) -> GroupDump {
+        groups
+            .iter()
+            .map(|(key, variants)| {
+                (
+                    IntT::skalo_decode_kmer(key.0, k_graph),
+                    IntT::skalo_decode_kmer(key.1, k_graph),
+                    variants
+                        .iter()
+                        .map(|v| (v.sequence.decode(), v.vec_snps.clone()))
+                        .collect(),
+                )
+            })
+            .collect()
+    }
+
+    /// Called from `build_variant_groups` (only with the feature on)
+    pub fn record_groups<IntT: for<'a> UInt<'a>>(
+        final_groups: &HashMap<(IntT, IntT), Vec<VariantInfo>>,
+        final_indels: &HashMap<(IntT, IntT), Vec<VariantInfo>>,
+        k_graph: usize,
+    ) {
+        *GROUP_SINK.lock().unwrap() =
+            Some((dump(final_groups, k_graph), dump(final_indels, k_graph)));
+    }
 }
